@@ -96,16 +96,19 @@ def replay_program(ctx, beh):
     obs = final['obs']
     if not gates:
         return
-    word = [gate_str(g) if g['op'] != 'measure' else 'measure(%s)->%d' % ([q - 1 for q in g['tg']], g['out']) for g in gates]
+    word = [('shift(+%d)' % g['out']) if g['op'] == 'shift' else gate_str(g) if g['op'] != 'measure' else 'measure(%s)->%d' % ([q - 1 for q in g['tg']], g['out']) for g in final['ops']]
     data = dict(program=word)
     try:
         circ = numqi.sim.Circuit()
-        mg = []
-        for g in gates:
-            if g['op'] == 'measure':
-                mg.append((circ.measure(tuple(q - 1 for q in g['tg']), seed=forced_gen(g['out'])), g))
+        mobj = []
+        for c in final['ops']:            # the calls in program order: gate appends, measure gates and shift_qubit_index_
+            if c['op'] == 'measure':
+                mobj.append(circ.measure(tuple(q - 1 for q in c['tg']), seed=forced_gen(c['out'])))
+            elif c['op'] == 'shift':
+                circ.shift_qubit_index_(c['out'])
             else:
-                add_gate(circ, g)
+                add_gate(circ, c)
+        mg = list(zip(mobj, [g for g in gates if g['op'] == 'measure']))      # final positions of the measure gates
         n = circ.num_qubit
         if n != obs['n']:
             ctx.violation('C11:Circuit.num_qubit:register-size', 'register size differs', data)
